@@ -34,6 +34,18 @@ pub struct Check {
     pub stub: Vec<&'static str>,
 }
 
+/// Clauses of a property's oracle that are pure safety statements over a prefix of a history: they
+/// may be judged on what a run had recorded when it stopped making progress (a hang is C03's
+/// subject; the run that hangs may have broken this property before it hung).
+pub fn safety_clauses(prop: &str) -> &'static [&'static str] {
+    match prop {
+        "C19" => &["transmits_while_suspended", "timer_fault_while_suspended", "limit_fault_counts_suspended_time"],
+        "C18" => &["receiver_sent_forbidden_kind"],
+        "C20" => &["receiver_progress_exceeds_file_size", "sender_progress_exceeds_file_size"],
+        _ => &[],
+    }
+}
+
 pub const REAL_SIM: [&str; 8] = [
     "cfdp_core::pdu codec (every PDU crosses the link as bytes)",
     "cfdp_daemon::Daemon (routing, spawn, reaping, select loop)",
